@@ -21,7 +21,7 @@ def _ks(at, k, rng):
 
 
 def realise(at, k=3, spacing="uniform", rng=None, relabel=False, shifts=False, flips=None, edge_dirs=False,
-            cell_order=False, id_base=0, jitter=0.0):
+            cell_order=False, id_base=0, jitter=0.0, cell_id_base=0):
     """flips: None | 'random' | iterable of cell ids stored clockwise (reversed) | 'all'"""
     rng = rng if rng is not None else np.random.default_rng(0)
     ks = _ks(at, k, rng)
@@ -111,6 +111,8 @@ def realise(at, k=3, spacing="uniform", rng=None, relabel=False, shifts=False, f
             clab[cids[int(zr.integers(len(cids)))]] = 0
     else:
         clab = {c: c for c in cids}
+    if cell_id_base:
+        clab = {c: (x + cell_id_base if x != 0 else 0) for c, x in clab.items()}
     corder = [cids[i] for i in rng.permutation(len(cids))] if cell_order else cids
     if flips == "random":
         flipset = {c for c in cids if rng.random() < 0.5}
